@@ -22,7 +22,9 @@ RULE = ('Producer: key d and 32-byte digests from boundary-biased classes (0.., 
         'coordinate + p alias), signatures given as ints / 64 bytes / 128 hex / DER+hash type (bytes, hex) incl. '
         'non-canonical DER (padded ints, long-form lengths, trailing bytes, truncation, negative, wrong tags), '
         'public key as Key / private Key / HDKey / bytes / hex, through verify(), Signature.verify() and '
-        'Signature.parse(public_key=). Non-trivial = producer case with a boundary-class key or digest, an explicit '
+        'Signature.parse(public_key=). Re-use histories: one Signature object (from sign(), parse or integers) '
+        'asked 2..5 questions with other digests / keys / the stored key - every answer is the ECDSA verdict of '
+        'that call. Non-trivial = producer case with a boundary-class key or digest, an explicit '
         'nonce or a non-default hash type; every verifier case that is not the plain valid triple; distinct by all '
         'case fields.')
 ASSUMPTIONS = ['ref/ec.py implements secp256k1 ECDSA verification and BIP66 correctly (self-tested in ref/selftest.py)',
@@ -364,7 +366,55 @@ def check_verify(ctx, case):
               what), case, kf=kf)
 
 
-DISPATCH = {'sign': check_sign, 'verify': check_verify, 'noncepair': check_noncepair}
+
+
+def check_reuse(ctx, case):
+    """One Signature object asked several questions in a row. case: kind=reuse, d, d2, zs (hex digests), origin
+    sign|parse|ints, steps [{'z': index, 'pk': 'right'|'wrong'|'stored', 'entry': 'method'|'fn'}]. Every answer must
+    be the standard ECDSA verdict for the digest and key OF THAT CALL, whatever the object was asked before."""
+    from ref import ec
+    keys = _lib()
+    d, d2 = int(case['d'], 16), int(case['d2'], 16)
+    zs = [bytes.fromhex(z) for z in case['zs']]
+    q, q2 = ec.pubkey(d), ec.pubkey(d2)
+    pkb = {'right': ec.ser_compressed(q), 'wrong': ec.ser_compressed(q2)}
+    try:
+        sig = keys.sign(zs[0], keys.Key(d))
+        r, s = sig.r, sig.s
+        if case['origin'] == 'parse':
+            sig = keys.Signature.parse(sig.as_der_encoded())
+        elif case['origin'] == 'ints':
+            sig = keys.Signature(r, s)
+    except Exception as e:
+        raise Discrepancy('reuse.setup.raises', 'creating the signature raised %r' % e, case)
+    if not ec.verify(int.from_bytes(zs[0], 'big'), r, s, q):
+        raise Discrepancy('reuse.setup.invalid', 'sign() returned a signature the reference rejects', case)
+    last_pk = 'right' if case['origin'] == 'sign' else None
+    for n, st_ in enumerate(case['steps']):
+        zb = zs[st_['z'] % len(zs)]
+        which = st_['pk']
+        if which == 'stored' and last_pk is None:
+            which = 'right'
+        use = last_pk if which == 'stored' else which
+        want = ec.verify(int.from_bytes(zb, 'big'), r, s, q if use == 'right' else q2)
+        try:
+            if which == 'stored':
+                got = sig.verify(zb)
+            elif st_['entry'] == 'fn':
+                got = keys.verify(zb, sig, keys.Key(pkb[which]))
+            else:
+                got = sig.verify(zb, keys.Key(pkb[which]))
+        except Exception as e:
+            got = False
+        last_pk = use
+        if bool(got) != want:
+            raise Discrepancy('reuse.verdict:%s:%s' % (case['origin'], 'accepts' if got else 'rejects'),
+                              'call %d on one Signature object (%s): verify(digest %d, key %s) = %r, standard ECDSA '
+                              'says %r (earlier calls: %r)' % (n + 1, case['origin'], st_['z'] % len(zs), which, got,
+                                                               want, case['steps'][:n]), case)
+
+
+DISPATCH = {'sign': check_sign, 'verify': check_verify, 'noncepair': check_noncepair, 'reuse': check_reuse}
 
 
 def replay(ctx, case):
@@ -583,7 +633,15 @@ def strategies(ctx):
         st.sampled_from(['key_pub', 'key_pub', 'key_priv', 'hdkey_pub', 'bytes', 'bytes', 'hex']),
         st.sampled_from(['bytes', 'hex']), st.sampled_from(['verify_fn', 'verify_fn', 'sig_method', 'sig_ctor_pk']),
         st.sampled_from([1, 1, 1, 0, 2, 3, 0x81, 0xff]))
-    return sign, verify
+    reuse = st.fixed_dictionaries({
+        'kind': st.just('reuse'),
+        'd': gen.secrets().map(_h), 'd2': st.integers(1, 1000).map(_h),
+        'zs': st.lists(hexd, min_size=2, max_size=3, unique=True),
+        'origin': st.sampled_from(['sign', 'parse', 'ints']),
+        'steps': st.lists(st.fixed_dictionaries({'z': st.integers(0, 2), 'pk': st.sampled_from(['right', 'right', 'wrong', 'stored']),
+                                                 'entry': st.sampled_from(['method', 'fn'])}), min_size=2, max_size=5),
+    })
+    return sign, verify, reuse
 
 
 # ---- probes ------------------------------------------------------------------------------------------
@@ -654,7 +712,7 @@ def run(ctx):
     ctx.exhaustive('producer: every hash type byte 0..255')
 
     # 2. Hypothesis ----------------------------------------------------------------------------------------
-    sign, verify = strategies(ctx)
+    sign, verify, reuse = strategies(ctx)
 
     def p_sign(case):
         if len([s for s in ctx.samples if s.get('kind') == 'sign']) < 2:
@@ -667,3 +725,12 @@ def run(ctx):
         check_verify(ctx, case)
     ctx.run_given('sign', sign, p_sign, ctx.scale(110, 2500))
     ctx.run_given('verify', verify, p_verify, ctx.scale(330, 7000))
+
+    def p_reuse(case):
+        zi = [s['z'] % len(case['zs']) for s in case['steps']]
+        if len(set(zi)) > 1:
+            ctx.nt(('reuse', case['d'], tuple(case['zs']), case['origin'], str(case['steps'])))
+            ctx.klass('reuse.other_digest_after_first')
+        ctx.klass('reuse.origin.' + case['origin'])
+        check_reuse(ctx, case)
+    ctx.run_given('reuse', reuse, p_reuse, ctx.scale(40, 1500))
